@@ -7,7 +7,7 @@
     bodies); it is validated by execution on every run (vlib/c05.py). *)
 From Coq Require Import NArith List Bool.
 From DL Require Import Lib.Bytes Lua.Syntax Lua.Sem Model.Rename Model.Bundle Model.BundleWrapper
-  Proof.BundleSpec Proof.BundleTheorems Proof.BundleWrapperBase Proof.BundleWrapperFacts.
+  Proof.BundleSpec Proof.BundleTheorems Proof.BundleNames Proof.BundleWrapperBase Proof.BundleWrapperFacts.
 Import ListNotations.
 Open Scope N_scope.
 
@@ -112,6 +112,46 @@ Theorem C05_module_names_not_cache : forall n, ~ In (of_string "cache") (module_
 Proof. exact module_names_not_cache. Qed.
 Print Assumptions C05_module_names_not_cache.
 Check C05_module_names_not_cache : forall n, ~ In (of_string "cache") (module_names n).
+
+
+(** accessor names (generate_module_name), for every number n of modules: valid identifiers *)
+Theorem C05_module_names_valid : forall n, Forall (fun x => valid_ident x = true) (module_names n).
+Proof. exact module_names_valid. Qed.
+Print Assumptions C05_module_names_valid.
+Check C05_module_names_valid : forall n, Forall (fun x => valid_ident x = true) (module_names n).
+
+(** ... that is: identifier shape, not a keyword, not `cache` *)
+Theorem C05_module_names_identifier : forall n x, In x (module_names n) ->
+  ident_shape x = true /\ ~ In x keywords /\ x <> of_string "cache".
+Proof. exact module_names_identifier. Qed.
+Print Assumptions C05_module_names_identifier.
+Check C05_module_names_identifier : forall n x, In x (module_names n) ->
+  ident_shape x = true /\ ~ In x keywords /\ x <> of_string "cache".
+
+(** ... and pairwise distinct *)
+Theorem C05_module_names_distinct : forall n i j,
+  (i < List.length (module_names n))%nat -> (j < List.length (module_names n))%nat ->
+  nth i (module_names n) [] = nth j (module_names n) [] -> i = j.
+Proof. exact module_names_distinct. Qed.
+Print Assumptions C05_module_names_distinct.
+Check C05_module_names_distinct : forall n i j,
+  (i < List.length (module_names n))%nat -> (j < List.length (module_names n))%nat ->
+  nth i (module_names n) [] = nth j (module_names n) [] -> i = j.
+
+(** the indexed name function of the correspondence check, up to names_bound = 1000 modules (the generator does not run dry there: computed) *)
+Theorem C05_module_name_valid_bounded : forall k, (k < names_bound)%nat ->
+  ident_shape (module_name k) = true /\ ~ In (module_name k) keywords /\ module_name k <> of_string "cache".
+Proof. exact module_name_valid_bounded. Qed.
+Print Assumptions C05_module_name_valid_bounded.
+Check C05_module_name_valid_bounded : forall k, (k < names_bound)%nat ->
+  ident_shape (module_name k) = true /\ ~ In (module_name k) keywords /\ module_name k <> of_string "cache".
+
+Theorem C05_module_name_inj_bounded : forall i j, (i < names_bound)%nat -> (j < names_bound)%nat ->
+  module_name i = module_name j -> i = j.
+Proof. exact module_name_inj_bounded. Qed.
+Print Assumptions C05_module_name_inj_bounded.
+Check C05_module_name_inj_bounded : forall i j, (i < names_bound)%nat -> (j < names_bound)%nat ->
+  module_name i = module_name j -> i = j.
 
 (** ---------------------------------------------------------------------------------------
     Code level (Lua/Sem.v): the emitted accessor [accessor_block M nm] (Model/BundleWrapper.v;
